@@ -293,6 +293,15 @@ theorem gen_shake128_oneshot_eq_spec (fuel : Nat) (h : List UInt8) (hoff outlen 
   rw [← hs]
   exact SqiProofs.SpongeGen.shake128_oneshot_eq SqiGen.Keccak.keccakF fuel h hoff outlen msg s0 t0 ia ta iq1 iq2 ic ht0 hta hl hf
 
+/-- non-vacuity: the hypotheses of `gen_shake256_oneshot_eq_spec` are met by a 40-byte buffer, offset 4, 32 output bytes, a 3-byte
+    message and non-zero garbage in the uninitialised blocks -/
+example : ∃ h', SqiGen.Sponge.shake256.run SqiGen.Keccak.keccakF 1000 (List.replicate 40 0) 4 32 [1, 2, 3] 3 Fips202.zeroState
+      (List.replicate 136 7) 5 (List.replicate 200 9) 1 2 3 = some h' ∧
+    SqiProofs.SpongeGen.Written (List.replicate 40 0) h' 4 32 (Fips202.shake256 [1, 2, 3] 32) :=
+  gen_shake256_oneshot_eq_spec 1000 (List.replicate 40 0) 4 32 [1, 2, 3] Fips202.zeroState (List.replicate 136 7) 5
+    (List.replicate 200 9) 1 2 3 (by simp [SqiGen.Sponge.shake256.tlen]) List.length_replicate (by simp only [List.length_replicate]; omega)
+    (by simp only [List.length_cons, List.length_nil]; omega)
+
 /-- the incremental API (`shake256_inc_init/absorb/finalize/squeeze`), for any chunking of the message and any split
     of the output request, produces FIPS 202 SHAKE256 of the concatenation, truncated to the total request -/
 theorem shake256_inc_eq_spec (chunks : List (List UInt8)) (reqs : List Nat) :
